@@ -624,12 +624,38 @@ def baseline_function(qualname):
     return wrap
 
 
+def _dealias(region, fnode):
+    """Locals bound once, at the top level of the function, to a plain attribute chain (`rr = self.rrule`) are replaced by
+    that chain inside the region: the region is read in terms of the function's inputs, whichever side names the alias."""
+    import copy
+    from .model import attr_chain
+    counts = {}
+    for x in walk_local(fnode):
+        if isinstance(x, ast.Name) and isinstance(x.ctx, (ast.Store, ast.Del)):
+            counts[x.id] = counts.get(x.id, 0) + 1
+    alias = {}
+    for st in fnode.body:
+        if isinstance(st, ast.Assign) and len(st.targets) == 1 and isinstance(st.targets[0], ast.Name) and isinstance(st.value, ast.Attribute) \
+                and attr_chain(st.value) and counts.get(st.targets[0].id) == 1:
+            alias[st.targets[0].id] = st.value
+    if not alias:
+        return region
+
+    class R(ast.NodeTransformer):
+        def visit_Name(self, n):
+            if isinstance(n.ctx, ast.Load) and n.id in alias:
+                return copy.deepcopy(alias[n.id])
+            return n
+    return [R().visit(copy.deepcopy(st)) for st in region]
+
+
 def check_region_table(ctx, rule, func, pick, what, construct, **kw):
     """A region of a large function (the statements `pick(function node)` selects - by what they mention, never by position)
     has the confirmed effect table."""
     from . import summ, equiv
-    cur = pick(func.node)
-    base = pick(baseline_function(func.qualname))
+    bfn = baseline_function(func.qualname)
+    cur = _dealias(pick(func.node), func.node)
+    base = _dealias(pick(bfn), bfn)
     if not cur or not base:
         raise AnalysisError(rule, func.qualname, "region `%s` not found (%d / %d statements)" % (construct, len(cur), len(base)))
     kw.setdefault("loops", "body")
